@@ -321,6 +321,30 @@ func init() {
 		return TupleVal{n, IfaceVal{}}, ctlRet
 	})
 
+	// ----- pierrec lz4 reader/writer as opaque objects (C16: the wrapper's pooling logic, not the algorithm) -----
+	const lz = "github.com/pierrec/lz4/v4"
+	for _, tn := range []string{"Reader", "Writer"} {
+		tn := tn
+		reg(lz+".New"+tn, func(ex *Exec, st *State, fr *Frame, args []Value) (Value, ctlT) {
+			t := ex.prog.byPath[lz].Type(tn).Type()
+			return st.newPtr(ex.zero(t)), ctlRet
+		})
+		reg("(*"+lz+"."+tn+").Reset", func(ex *Exec, st *State, fr *Frame, args []Value) (Value, ctlT) {
+			if args[0].(PtrVal).IsNil() {
+				ex.runtimePanic(st, "nil pointer dereference (lz4 "+tn+")")
+				return nil, ctlEnd
+			}
+			return nil, ctlRet
+		})
+	}
+	reg("(*"+lz+".Writer).Close", func(ex *Exec, st *State, fr *Frame, args []Value) (Value, ctlT) {
+		if args[0].(PtrVal).IsNil() {
+			ex.runtimePanic(st, "nil pointer dereference (lz4 Writer)")
+			return nil, ctlEnd
+		}
+		return IfaceVal{}, ctlRet
+	})
+
 	// SASLprep (xdg-go/stringprep over x/text Unicode tables, not interpreted): an injective marker function, so that
 	// "was the credential prepared?" is decidable; harnesses compute their expectation through the same function and
 	// the native replay uses the real one
